@@ -7,7 +7,7 @@ PROPERTY = "C14"
 LEVEL = "exploration"
 NEEDS = ("rust", "deps")
 EXHAUSTIVE = {"quick": False, "thorough": False}
-REQUIRED_MONITORS = ["py_kil_clauses", "rs_kil_clauses", "py_event_automaton", "rs_event_automaton", "fifo_suffix",
+REQUIRED_MONITORS = ["machine_keyi_rs_steps", "py_kil_clauses", "rs_kil_clauses", "py_event_automaton", "rs_event_automaton", "fifo_suffix",
                      "keyi_edge", "enqueue_contract", "fifo_stream_tail", "fifo_burst_overflows_in_one_op"]
 RULE = ("histories over {press k, release k, write KOL v, write KOH v, scan tick, read KIL, inject event, consume, (Rust) "
         "mirror FIFO to ISR with keyboard IRQs on/off} with adversarial keys (same row on different columns, same column, KOH "
@@ -532,6 +532,43 @@ def adversarial_keys(r, table):
     return {n: table[n] for n in pick}
 
 
+def run_machine_keyi(spec) -> Result:
+    """ROM programs on PCE500Emulator and CoreRuntime (C12's drivers and trace checker) with keyboard interrupts switched
+    on or off, keys going down/up, KIL polled or never read, ISR/IMR rewritten by the host; only the statement's clause
+    "the key interrupt is raised only when events are pending and keyboard interrupts are enabled" is taken from the
+    checker here (everything else it says belongs to C12)."""
+    from . import c12
+    res = Result()
+    r = rng(spec["seed"], "c14machine", spec["idx"])
+    n = (240 if spec["tier"] == "quick" else 4800) // spec["parts"]
+    keyev = [e for e in c12.EVENTS if e[0] in ("press", "release")]
+    jobs = []
+    for _ in range(n):
+        main = r.choice(list(c12.MAINS))
+        body = r.choice(("empty", "clear_isr", "zero", "reenable", "touch", "clear_then_reenable"))
+        imr0 = r.choice((0x00, 0x04, 0x80, 0x84, 0x85, 0x8F, 0x8B, 0x81))
+        timer = {"enabled": True, "mti": r.choice((1, 2, 3, 5)), "sti": r.choice((0, 3, 8))}
+        scen = c12.scenario(main, body, imr0, timer, kb_irq=r.random() < 0.5)
+        nsteps = r.randrange(60, 140)
+        placed = {}
+        for _e in range(r.randrange(2, 9)):
+            placed[r.randrange(6, nsteps)] = r.choice(keyev) if r.random() < 0.7 else r.choice(c12.EVENTS)
+        jobs.append((scen, c12.build_script(nsteps, placed)))
+    tmp = Result()
+    for lo in range(0, len(jobs), 60):
+        c12.run_jobs(tmp, jobs[lo:lo + 60])
+    res.evaluations += len(jobs) * 2
+    res.monitor("machine_keyi_py_hook", tmp.monitors.get("py_keyi_hook", 0))
+    res.monitor("machine_keyi_rs_steps", tmp.monitors.get("rs_trace_checker", 0))
+    for j, (scen, _s) in enumerate(jobs):
+        res.nontrivial("machine", scen["main"], scen["body"], scen["imr0"], scen["timer"]["kb_irq"], j)
+    for v in tmp.violations:
+        if v["sig"].get("clause") == "keyi_raised_without_pending_or_enable":
+            res.violation({"clause": "keyi_raised_without_pending_or_enable", "level": "machine", "model": v["sig"].get("model")},
+                          v["case"], v["detail"])
+    return res
+
+
 def plan(tier, seed):
     specs = []
     idx = 0
@@ -541,12 +578,20 @@ def plan(tier, seed):
     nen = 4 if tier == "quick" else 16
     for i in range(nen):
         specs.append({"kind": "enum", "part": i, "parts": nen, "seed": seed, "tier": tier, "idx": idx}); idx += 1
+    # the key-interrupt clause on the two complete machines (the Rust decision "raise KEYI?" is taken in
+    # TimerContext::tick_timers_with_keyboard with CoreRuntime's closure, the Python one in PCE500Emulator._tick_timers:
+    # neither is reachable through the keyboard classes alone)
+    nm = 4 if tier == "quick" else 16
+    for i in range(nm):
+        specs.append({"kind": "machine", "part": i, "parts": nm, "seed": seed, "tier": tier, "idx": 7000 + i})
     return specs
 
 
 def run_shard(spec) -> Result:
     res = Result()
     r = rng(spec["seed"], "c14", spec["idx"])
+    if spec["kind"] == "machine":
+        return run_machine_keyi(spec)
     table = key_table()
     jobs = []
     if spec["kind"] == "random":
